@@ -320,7 +320,18 @@ func (o *optimizer) etaReduction() {
 				d, _ := ctx.Stack[i+1].(*ast.DeferStmt)
 				return call != nil && d != nil && d.Call == call && call.Fun == fun
 			}
-			if matched(ctx, params, args) && stable(ctx, fun, 0) && sameType() && !deferred() {
+			// a variadic closure must spread its last parameter: f(xs...), not f(xs)
+			spread := func() bool {
+				lit := c.Node().(*ast.FuncLit)
+				sig, _ := ctx.TypeOf(lit).(*types.Signature)
+				ret, _ := lit.Body.List[0].(*ast.ReturnStmt)
+				if sig == nil || ret == nil || len(ret.Results) != 1 {
+					return false
+				}
+				call, _ := ret.Results[0].(*ast.CallExpr)
+				return call != nil && call.Ellipsis.IsValid() == sig.Variadic()
+			}
+			if matched(ctx, params, args) && stable(ctx, fun, 0) && sameType() && spread() && !deferred() {
 				c.Replace(fun)
 			}
 		},
